@@ -185,6 +185,19 @@ def check_bs_case(c):
         tl = b3(xl, **kw3)
         if np.asarray(tl).shape != (len(xl), np.asarray(tr2).shape[1]) or not np.allclose(tl, np.tile(np.asarray(tr2, dtype=float), (reps, 1))[order], atol=TOL):
             probs.append((dict({"clause": "bs_long_vector_rows_differ_from_short_vector"}, **sig), dict(base, rows=int(len(xl)))))
+        # the basis is unchanged when x, knots and bounds are divided by a common number: done with the knots' greatest
+        # common divisor, the knots stay integers (and are handed over as an integer array) while the bounds become fractions
+        ksf = [fr(q) for q in c["knots"]]
+        if ksf and all(kq.denominator == 1 for kq in ksf):
+            from functools import reduce
+            from math import gcd
+
+            dd = reduce(gcd, [abs(int(kq)) for kq in ksf])
+            lo_i, hi_i = int(bounds.get("lower_bound", min(c["x"]))), int(bounds.get("upper_bound", max(c["x"])))
+            if dd >= 2 and (lo_i % dd or hi_i % dd):
+                t4 = BSpline()(x / dd, knots=np.array([int(kq) // dd for kq in ksf], dtype=np.int64), degree=degree, intercept=intercept, lower_bound=lo_i / dd, upper_bound=hi_i / dd)
+                if np.asarray(t4).shape != np.asarray(tr2).shape or not np.allclose(t4, tr2, atol=TOL):
+                    probs.append((dict({"clause": "bs_not_invariant_under_rescaling_with_integer_knots"}, **sig), dict(base, divisor=dd)))
         if np.asarray(tr).shape[1] != df:
             probs.append((dict({"clause": "bs_column_count"}, **sig), dict(base, got=int(np.asarray(tr).shape[1]))))
         if np.min(tr) < -TOL:
@@ -222,7 +235,14 @@ def check_decision_case(c):
     kw["degree"] = p["degree"] if p["degree_is_int"] else float(p["degree"]) + 0.5
     kw["intercept"] = bool(p["intercept"])
     if not p["bounds_ok"]:
-        kw["lower_bound"], kw["upper_bound"] = 9.0, 0.0
+        # lower > upper: both bounds given, or one bound given beyond the far end of the data (0..9)
+        which = (p["df"] + p["degree"] + (1 if p["intercept"] else 0)) % 3
+        if which == 0:
+            kw["lower_bound"], kw["upper_bound"] = 9.0, 0.0
+        elif which == 1:
+            kw["lower_bound"] = 100.0
+        else:
+            kw["upper_bound"] = -2.0
     elif derived_outside:
         kw["lower_bound"] = 8.5   # above every percentile knot of 0..9
     base = {"call": {k: (v if not isinstance(v, list) else v) for k, v in kw.items()}, "spec": c["abs"]}
